@@ -224,14 +224,47 @@ def float_repr(text):
     if cs and ctx.decide_b(zor([ch_eq(cs[0], "+"), ch_eq(cs[0], "-")])):
         neg = ctx.decide_b(ch_eq(cs[0], "-"))
         cs.pop(0)
+    for word, out in (("inf", "inf"), ("infinity", "inf"), ("nan", "nan")):
+        if len(cs) == len(word) and ctx.decide_b(zand([zor([ch_eq(c, w), ch_eq(c, w.upper())]) for c, w in zip(cs, word)])):
+            return (["-"] if neg and out == "inf" else []) + list(out)
     ip, fp, seen_dot = [], [], False
-    for c in cs:
+    exp = None
+    for k, c in enumerate(cs):
         if not seen_dot and ctx.decide_b(ch_eq(c, ".")):
             seen_dot = True
             continue
         if not ctx.decide_b(ch_in(c, ((48, 57),))):
-            raise Unsupported("repr of a float written with an exponent, underscores, non-ASCII digits, inf or nan")
+            if (ip or fp) and ctx.decide_b(zor([ch_eq(c, "e"), ch_eq(c, "E")])):
+                # exponent: [+-] and at most two ASCII digits, each decided (one path per exponent value)
+                es = cs[k + 1:]
+                eneg = False
+                if es and ctx.decide_b(zor([ch_eq(es[0], "+"), ch_eq(es[0], "-")])):
+                    eneg = ctx.decide_b(ch_eq(es[0], "-"))
+                    es = es[1:]
+                if not es or len(es) > 2:
+                    raise Unsupported("repr of a float with an exponent of more than two digits")
+                exp = 0
+                for e in es:
+                    for dv in range(10):
+                        if ctx.decide_b(ch_eq(e, str(dv))):
+                            exp = exp * 10 + dv
+                            break
+                    else:
+                        raise Unsupported("repr of a float written with underscores or non-ASCII digits in the exponent")
+                exp = -exp if eneg else exp
+                break
+            raise Unsupported("repr of a float written with underscores, non-ASCII digits, inf or nan")
         (fp if seen_dot else ip).append(c)
+    if exp:
+        if abs(exp) > 15:
+            raise Unsupported("repr of a float with an exponent beyond +-15")
+        digits, pos = ip + fp, len(ip) + exp
+        if pos <= 0:
+            ip, fp = [], ["0"] * (-pos) + digits
+        elif pos >= len(digits):
+            ip, fp = digits + ["0"] * (pos - len(digits)), []
+        else:
+            ip, fp = digits[:pos], digits[pos:]
     while len(ip) > 1 and ctx.decide_b(ch_eq(ip[0], "0")):
         ip.pop(0)
     while len(fp) > 1 and ctx.decide_b(ch_eq(fp[-1], "0")):
